@@ -55,7 +55,10 @@ pub struct MonState {
   armed: Vec<Armed>,
   limbo: Vec<KeyCode>,
   ever_armed: Vec<KeyCode>,
-  repeat_pending: bool
+  repeat_pending: bool,
+  // the monitor's own record of the mappings in effect: fired (per the hook) and no trigger key released since;
+  // the "mentioned by a mapping in effect" clause of C03 is judged against it as well as against the mapper's list
+  in_effect: Vec<Mapping>
 }
 
 fn sorted(v: &[KeyCode]) -> Vec<KeyCode> { let mut x = v.to_vec(); x.sort(); x }
@@ -70,7 +73,7 @@ pub fn mon_key(st: &MonState) -> u64 {
   };
   let mut pairs = st.c02d_pairs.clone();
   pairs.sort();
-  hash64(&(sorted(&st.in_set), sorted(&st.out_set), st.fired_since_rest, pairs, state_hash(&st.shadow), st.c07_watch, armed, sorted(&st.limbo), sorted(&st.ever_armed), st.repeat_pending))
+  hash64(&(sorted(&st.in_set), sorted(&st.out_set), st.fired_since_rest, pairs, state_hash(&st.shadow), st.c07_watch, armed, sorted(&st.limbo), sorted(&st.ever_armed), st.repeat_pending, { let mut e: Vec<u64> = st.in_effect.iter().map(mapping_hash).collect(); e.sort(); e }))
 }
 
 pub fn fresh_state() -> VerifState {
@@ -85,7 +88,7 @@ impl MonState {
     MonState {
       in_set: vec![], out_set: vec![], hist: vec![], fired_since_rest: false, c02d_pairs: vec![],
       shadow: fresh_state(), c07_watch: false, armed: vec![], limbo: vec![], ever_armed: vec![],
-      repeat_pending: false
+      repeat_pending: false, in_effect: vec![]
     }
   }
 }
@@ -278,6 +281,16 @@ impl<'a> Engine<'a> {
     if fired.is_some() { self.st.fired_since_rest = true; out.count("firings"); }
     if acted { out.count("acted_steps"); }
     if matches!(op, Op::RA) { out.count("release_all_calls"); }
+    // (updated at the end of apply; the clauses below see the list as it was before this step)
+    let in_effect_after: Vec<Mapping> = {
+      let mut v = self.st.in_effect.clone();
+      match op {
+        Op::P(_) => { if acted { if let Some(m) = &fired { v.push(m.clone()); } } },
+        Op::R(k) => { if acted { v.retain(|m| !m.from.contains(k)); } },
+        Op::RA => v.clear()
+      }
+      v
+    };
 
     // ---- C19: bookkeeping == device ----
     if self.flags.c19 {
@@ -421,7 +434,10 @@ impl<'a> Engine<'a> {
                     format!("press of {} with {:?} held: no mapping qualifies but {} fired", key_name(*k), in_before, mapping_str(fired.as_ref().unwrap()))));
                 }
                 else {
-                  let mentioned = pre.active_mappings.iter().any(|m| m.from.contains(k) || m.to.contains(k));
+                  let mentioned_hook = pre.active_mappings.iter().any(|m| m.from.contains(k) || m.to.contains(k));
+                  let mentioned_mon = self.st.in_effect.iter().any(|m| m.from.contains(k) || m.to.contains(k));
+                  if mentioned_mon && !mentioned_hook { out.count("c03_mentions_seen_only_by_the_monitor"); }
+                  let mentioned = mentioned_hook || mentioned_mon;
                   if mentioned {
                     out.count("c03_presses_mentioned_by_mapping_in_effect");
                     if !events.is_empty() {
@@ -778,6 +794,7 @@ impl<'a> Engine<'a> {
 
     if in_after.is_empty() { self.st.fired_since_rest = false; }
 
+    self.st.in_effect = in_effect_after;
     StepReport { events, violations, post_hash, acted, fired: fired.is_some() }
   }
 
